@@ -31,6 +31,9 @@ Proof.
   apply (f_equal (@length A)) in H. rewrite !app_length in H. lia.
 Qed.
 
+Lemma tag_app_inj (x y : N) (a b : bytes) : [x] ++ a = [y] ++ b -> x = y /\ a = b.
+Proof. cbn [app]. intros [= -> ->]. auto. Qed.
+
 Lemma pow_256_8 : 256 ^ N.of_nat 8 = 2 ^ 64.
 Proof. vm_compute. reflexivity. Qed.
 
@@ -57,12 +60,13 @@ Definition ord_pair (a b : node) : node * node :=
 Definition node_triple (n : node) : N * N * bytes := (n_index n, n_length n, n_hash n).
 
 Lemma node_triple_inj a b : node_triple a = node_triple b -> a = b.
-Proof. destruct a, b. unfold node_triple; cbn [n_index n_length n_hash]. now intros [= -> -> ->]. Qed.
+Proof. destruct a as [i l h], b as [i' l' h']. unfold node_triple; cbn [n_index n_length n_hash]. now intros [= -> -> ->]. Qed.
 
 Lemma map_node_triple_inj l l' : map node_triple l = map node_triple l' -> l = l'.
 Proof.
   revert l'; induction l as [|a l IH]; intros [|a' l'] H; cbn [map] in H; try discriminate; [reflexivity|].
-  injection H as H1 H2. apply node_triple_inj in H1. apply IH in H2. now subst.
+  pose proof (f_equal (hd (node_triple a)) H) as H1. pose proof (f_equal (@tl _) H) as H2.
+  cbn [hd tl] in H1, H2. apply node_triple_inj in H1. apply IH in H2. now subst.
 Qed.
 
 (* what is needed of a root for the tree hash layout to be parseable *)
@@ -75,7 +79,7 @@ Definition root_wf (n : node) : Prop :=
 
 Lemma leaf_preimage_inj a b : leaf_preimage a = leaf_preimage b -> a = b.
 Proof.
-  unfold leaf_preimage. cbn [app]. intros H. injection H as H.
+  unfold leaf_preimage. intros H. apply tag_app_inj in H. destruct H as [_ H].
   apply app_inj_l in H; [tauto | now rewrite !length_le_bytes].
 Qed.
 
@@ -90,7 +94,7 @@ Lemma parent_body_inj s s' hl hr hl' hr' :
   [1] ++ le_bytes 8 s ++ hl ++ hr = [1] ++ le_bytes 8 s' ++ hl' ++ hr' ->
   le_bytes 8 s = le_bytes 8 s' /\ hl = hl' /\ hr = hr'.
 Proof.
-  cbn [app]. intros HL H. injection H as H.
+  intros HL H. apply tag_app_inj in H. destruct H as [_ H].
   apply app_inj_l in H; [|now rewrite !length_le_bytes]. destruct H as [H1 H2].
   split; [exact H1|]. destruct HL as [HL|HL]; [apply app_inj_l in H2 | apply app_inj_r in H2]; tauto.
 Qed.
@@ -154,8 +158,8 @@ Lemma leaf_parent_disjoint d a b rs :
   leaf_preimage d <> tree_preimage rs /\
   parent_preimage a b <> tree_preimage rs.
 Proof.
-  rewrite parent_preimage_ord. unfold leaf_preimage, tree_preimage. cbn [app].
-  repeat split; intros H; discriminate H.
+  rewrite parent_preimage_ord. unfold leaf_preimage, tree_preimage.
+  repeat split; intros H; apply tag_app_inj in H; destruct H as [H _]; discriminate H.
 Qed.
 
 Lemma length_root_item n : root_wf n -> length (root_item n) = 48%nat.
@@ -179,7 +183,7 @@ Lemma tree_preimage_inj rs rs' :
   Forall root_wf rs -> Forall root_wf rs' ->
   tree_preimage rs = tree_preimage rs' -> map node_triple rs = map node_triple rs'.
 Proof.
-  unfold tree_preimage. cbn [app]. intros W W' H. injection H as H.
+  unfold tree_preimage. intros W W' H. apply tag_app_inj in H. destruct H as [_ H].
   revert rs' W' H. induction W as [|n rs Wn W IH]; intros rs' W' H.
   - destruct W' as [|n' rs' Wn' W']; [reflexivity|]. exfalso.
     cbn [map concat] in H. apply (f_equal (@length N)) in H.
@@ -195,7 +199,7 @@ Corollary tree_preimage_inj_eq rs rs' :
   Forall root_wf rs -> Forall root_wf rs' -> tree_preimage rs = tree_preimage rs' -> rs = rs'.
 Proof. intros. now apply map_node_triple_inj, tree_preimage_inj. Qed.
 
-(* no hypothesis on the length of the hashes is needed: the 16 trailing bytes have a fixed size *)
+(* no premise on the length of the hashes is needed: the 16 trailing bytes have a fixed size *)
 Lemma signable_inj_gen h l f h' l' f' :
   l < 2 ^ 64 -> f < 2 ^ 64 -> l' < 2 ^ 64 -> f' < 2 ^ 64 ->
   signable h l f = signable h' l' f' -> h = h' /\ l = l' /\ f = f'.
@@ -264,4 +268,517 @@ Section Sound.
     destruct H as [H|H]; [|right; exact H]. left. now apply tree_preimage_inj.
   Qed.
 
+  (* ==================================================================================== *)
+  (* B. the climb                                                                          *)
+  (* ==================================================================================== *)
+
+  (* the nodes still in the queue (the order in which q_shift hands them out does not matter) *)
+  Definition q_list (q : nodeq) : list node :=
+    q_nodes q ++ match q_extra q with Some e => [e] | None => [] end.
+
+  Lemma q_length_list q : q_length q = N.of_nat (length (q_list q)).
+  Proof.
+    unfold q_length, q_list. rewrite app_length. destruct (q_extra q); cbn [length]; lia.
+  Qed.
+
+  Lemma q_shift_inv q i n q' :
+    q_shift q i = Ok (n, q') ->
+    n_index n = i /\ length (q_list q) = S (length (q_list q')) /\
+    (forall P : node -> Prop, Forall P (q_list q) <-> P n /\ Forall P (q_list q')).
+  Proof.
+    destruct q as [ns e]. unfold q_shift, q_list. cbn [q_nodes q_extra].
+    destruct e as [e|].
+    - destruct (n_index e =? i) eqn:E.
+      + intros [= <- <-]. cbn [q_nodes q_extra]. apply N.eqb_eq in E.
+        split; [exact E|]. split; [rewrite !app_length; cbn [length]; lia|].
+        intros P. rewrite app_nil_r. rewrite Forall_app. split.
+        * intros [H1 H2]. inversion H2; subst. auto.
+        * intros [H1 H2]. auto.
+      + destruct ns as [|m r]; [discriminate|].
+        destruct (n_index m =? i) eqn:E'; [|discriminate].
+        intros [= <- <-]. cbn [q_nodes q_extra]. apply N.eqb_eq in E'.
+        split; [exact E'|]. split; [reflexivity|].
+        intros P. cbn [app]. split.
+        * intros H. inversion H; subst. auto.
+        * intros [H1 H2]. constructor; auto.
+    - destruct ns as [|m r]; [discriminate|].
+      destruct (n_index m =? i) eqn:E'; [|discriminate].
+      intros [= <- <-]. cbn [q_nodes q_extra]. apply N.eqb_eq in E'.
+      split; [exact E'|]. split; [reflexivity|].
+      intros P. cbn [app]. split.
+      + intros H. inversion H; subst. auto.
+      + intros [H1 H2]. constructor; auto.
+  Qed.
+
+  (* T is consistent at iterator position it: the parent of it is the parent_node of it and its
+     sibling *)
+  Definition consistent_at (T : N -> node) (it : fiter) : Prop :=
+    let s := it_sibling it in let p := it_parent s in
+    n_hash (T (it_index p)) = parent_hash cr (T (it_index it)) (T (it_index s)) /\
+    n_length (T (it_index p)) = n_length (T (it_index it)) + n_length (T (it_index s)) /\
+    n_index (T (it_index it)) = it_index it /\ n_index (T (it_index s)) = it_index s /\
+    it_index it <> it_index s.
+
+  (* consistent on the whole upward path from it *)
+  Inductive consistent_path (T : N -> node) : nat -> fiter -> Prop :=
+  | cp_O it : consistent_path T O it
+  | cp_S k it : consistent_at T it -> consistent_path T k (it_parent (it_sibling it)) ->
+                consistent_path T (S k) it.
+
+  (* the iterator after k levels *)
+  Fixpoint it_up_n (k : nat) (it : fiter) : fiter :=
+    match k with O => it | S k' => it_up_n k' (it_parent (it_sibling it)) end.
+
+  (* the node carries the hash the writer's tree has at that index *)
+  Definition agrees (T : N -> node) (n : node) : Prop := n_hash n = n_hash (T (n_index n)).
+
+  Definition hash32 (n : node) : Prop := length (n_hash n) = 32%nat.
+
+  Lemma climb_S f q it cur acc :
+    climb cr (S f) q it cur acc =
+    if q_length q =? 0 then Ok (cur, acc)
+    else
+      let s := it_sibling it in
+      '(n, q') <- q_shift q (it_index s) ;;
+      let p := it_parent s in
+      l <- add64 "left.length + right.length" (n_length cur) (n_length n) ;;
+      let pn := mkNode (it_index p) l (parent_hash cr cur n) in
+      climb cr f q' p pn (acc ++ [n; pn]).
+  Proof. reflexivity. Qed.
+
+  (* everything the climb touches, in one induction *)
+  Lemma climb_all_sound T :
+    (forall i, hash32 (T i)) ->
+    forall fuel q it cur acc root visited,
+    Forall hash32 (q_list q) ->
+    n_index cur = it_index it ->
+    consistent_path T (length (q_list q)) it ->
+    climb cr fuel q it cur acc = Ok (root, visited) ->
+    n_index root = it_index (it_up_n (length (q_list q)) it) /\
+    exists ext, visited = acc ++ ext /\
+      (agrees T root ->
+       (agrees T cur /\ Forall (agrees T) (q_list q) /\ Forall (agrees T) ext) \/ some_collision).
+  Proof.
+    intros HT. induction fuel as [|f IH]; intros q it cur acc root visited Hq Hi Hp H.
+    - discriminate H.
+    - rewrite climb_S in H. destruct (q_length q =? 0) eqn:E.
+      + injection H as <- <-. apply N.eqb_eq in E. rewrite q_length_list in E.
+        assert (E' : length (q_list q) = O) by lia.
+        rewrite E'. cbn [it_up_n]. split; [exact Hi|].
+        exists []. split; [now rewrite app_nil_r|]. intros A. left.
+        apply length_zero_iff_nil in E'. rewrite E'. auto.
+      + cbv zeta in H. apply bind_ok in H. destruct H as [[n q'] [Hs H]].
+        apply bind_ok in H. destruct H as [l [_ H]].
+        apply q_shift_inv in Hs. destruct Hs as (Hn & HL & HF).
+        rewrite HL in Hp |- *. inversion Hp as [|k it0 Hat Hp' Ek Eit]; subst k it0.
+        cbn [it_up_n].
+        set (s := it_sibling it) in *. set (p := it_parent s) in *.
+        set (pn := mkNode (it_index p) l (parent_hash cr cur n)) in *.
+        apply HF in Hq. destruct Hq as [Hn32 Hq'].
+        specialize (IH q' p pn (acc ++ [n; pn]) root visited Hq' eq_refl Hp' H).
+        destruct IH as (IH1 & ext & -> & IH2).
+        split; [exact IH1|].
+        exists ([n; pn] ++ ext). split; [now rewrite app_assoc|].
+        intros A. destruct (IH2 A) as [(Apn & Aq' & Aext)|C]; [|right; exact C].
+        pose proof Apn as Apn0.
+        unfold agrees in Apn. subst pn. cbn [n_hash n_index] in Apn.
+        destruct Hat as (Hh & _ & I1 & I2 & _). fold s p in Hh, I1, I2.
+        rewrite Hh in Apn.
+        apply parent_hash_binds_same_idx in Apn.
+        * destruct Apn as [(A1 & A2 & _)|C]; [|right; exact C]. left.
+          assert (An : agrees T n) by (unfold agrees; now rewrite Hn).
+          split; [unfold agrees; now rewrite Hi|].
+          split; [apply HF; auto|].
+          cbn [app]. constructor; [exact An|]. constructor; [exact Apn0 | exact Aext].
+        * now rewrite Hi, I1.
+        * now rewrite Hn, I2.
+        * unfold hash32 in Hn32. rewrite Hn32. symmetry. apply HT.
+  Qed.
+
+  (* the statement asked for.  Compared with the sketch: no bound on any length and no premise
+     on the hash of [cur] is needed (the length field is 8 bytes whatever its value, and the two
+     hashes of a parent preimage are separated using the length of the sibling's hash alone) *)
+  Theorem climb_sound T fuel q it cur acc root visited :
+    (forall i, length (n_hash (T i)) = 32%nat) ->
+    Forall (fun n => length (n_hash n) = 32%nat) (q_list q) ->
+    n_index cur = it_index it ->
+    consistent_path T (length (q_list q)) it ->
+    climb cr fuel q it cur acc = Ok (root, visited) ->
+    n_hash root = n_hash (T (n_index root)) ->
+    n_hash cur = n_hash (T (it_index it)) \/ some_collision.
+  Proof.
+    intros HT Hq Hi Hp H A.
+    destruct (climb_all_sound T HT fuel q it cur acc root visited Hq Hi Hp H) as (_ & ext & _ & S).
+    destruct (S A) as [(A1 & _)|C]; [left|right; exact C].
+    unfold agrees in A1. now rewrite Hi in A1.
+  Qed.
+
+  Theorem climb_root_index T fuel q it cur acc root visited :
+    (forall i, length (n_hash (T i)) = 32%nat) ->
+    Forall (fun n => length (n_hash n) = 32%nat) (q_list q) ->
+    n_index cur = it_index it ->
+    consistent_path T (length (q_list q)) it ->
+    climb cr fuel q it cur acc = Ok (root, visited) ->
+    n_index root = it_index (it_up_n (length (q_list q)) it).
+  Proof.
+    intros HT Hq Hi Hp H.
+    now destruct (climb_all_sound T HT fuel q it cur acc root visited Hq Hi Hp H) as (R & _).
+  Qed.
+
+  (* every sibling taken from the queue, and every node the climb reports as visited (these are
+     the nodes verify_tree pushes into the changeset), carries the writer's hash *)
+  Theorem climb_siblings_sound T fuel q it cur acc root visited :
+    (forall i, length (n_hash (T i)) = 32%nat) ->
+    Forall (fun n => length (n_hash n) = 32%nat) (q_list q) ->
+    n_index cur = it_index it ->
+    consistent_path T (length (q_list q)) it ->
+    climb cr fuel q it cur acc = Ok (root, visited) ->
+    n_hash root = n_hash (T (n_index root)) ->
+    n_index root = it_index (it_up_n (length (q_list q)) it) /\
+    exists ext, visited = acc ++ ext /\
+      ((Forall (fun n => n_hash n = n_hash (T (n_index n))) (q_list q) /\
+        Forall (fun n => n_hash n = n_hash (T (n_index n))) ext) \/ some_collision).
+  Proof.
+    intros HT Hq Hi Hp H A.
+    destruct (climb_all_sound T HT fuel q it cur acc root visited Hq Hi Hp H) as (R & ext & E & S).
+    split; [exact R|]. exists ext. split; [exact E|].
+    destruct (S A) as [(_ & A2 & A3)|C]; [left; split; assumption | right; exact C].
+  Qed.
+
+  (* ==================================================================================== *)
+  (* C. block value / hash node soundness                                                  *)
+  (* ==================================================================================== *)
+
+  Lemma it_index_it_new i : it_index (it_new i) = i.
+  Proof. unfold it_new. destruct (N.odd i); reflexivity. Qed.
+
+  Lemma verify_tree_block_inv b oh c root c' :
+    verify_tree cr (Some b) oh None c = Ok (root, c') ->
+    exists r visited,
+      root = Some r /\
+      fits_u64 (db_index b * 2) = true /\
+      climb cr (S (S (length (db_nodes b)))) (mkQ (db_nodes b) None) (it_new (2 * db_index b))
+            (block_node cr (2 * db_index b) (db_value b))
+            [block_node cr (2 * db_index b) (db_value b)] = Ok (r, visited) /\
+      c' = cs_push_nodes c visited.
+  Proof.
+    unfold verify_tree, mul64. intros H.
+    destruct (fits_u64 (db_index b * 2)) eqn:F; [|discriminate H].
+    cbn [bind] in H. rewrite it_index_it_new in H.
+    rewrite (N.mul_comm (db_index b) 2) in H.
+    apply bind_ok in H. destruct H as [[r visited] [Hc H]].
+    injection H as <- <-. exists r, visited. auto.
+  Qed.
+
+  Theorem block_value_sound T b oh c root c' v0 :
+    (forall i, length (n_hash (T i)) = 32%nat) ->
+    Forall (fun n => length (n_hash n) = 32%nat) (db_nodes b) ->
+    consistent_path T (length (db_nodes b)) (it_new (2 * db_index b)) ->
+    T (2 * db_index b) = block_node cr (2 * db_index b) v0 ->
+    verify_tree cr (Some b) oh None c = Ok (Some root, c') ->
+    n_hash root = n_hash (T (n_index root)) ->
+    db_value b = v0 \/ some_collision.
+  Proof.
+    intros HT Hq Hp HT0 H A.
+    apply verify_tree_block_inv in H. destruct H as (r & visited & [= <-] & _ & Hc & _).
+    assert (QL : q_list (mkQ (db_nodes b) None) = db_nodes b)
+      by (unfold q_list; cbn [q_nodes q_extra]; apply app_nil_r).
+    eapply climb_sound in Hc; try eassumption.
+    - destruct Hc as [Hc|C]; [|right; exact C].
+      rewrite it_index_it_new, HT0 in Hc. cbn [block_node n_hash] in Hc.
+      now apply leaf_hash_binds.
+    - now rewrite QL.
+    - cbn [block_node n_index]. now rewrite it_index_it_new.
+    - now rewrite QL.
+  Qed.
+
+  Lemma verify_tree_hash_inv h c root c' :
+    verify_tree cr None (Some h) None c = Ok (root, c') ->
+    exists n rest r visited,
+      root = Some r /\ dh_nodes h = n :: rest /\ n_index n = dh_index h /\
+      climb cr (S (S (length (dh_nodes h)))) (mkQ rest None) (it_new (dh_index h)) n [n]
+        = Ok (r, visited) /\
+      c' = cs_push_nodes c visited.
+  Proof.
+    unfold verify_tree. cbn [bind]. intros H. rewrite it_index_it_new in H.
+    apply bind_ok in H. destruct H as [[n q] [Hs H]].
+    apply bind_ok in H. destruct H as [[r visited] [Hc H]].
+    injection H as <- <-.
+    unfold q_shift in Hs. cbn [q_nodes q_extra] in Hs.
+    destruct (dh_nodes h) as [|m rest] eqn:E; [discriminate Hs|].
+    destruct (n_index m =? dh_index h) eqn:E'; [|discriminate Hs].
+    injection Hs as <- <-. apply N.eqb_eq in E'.
+    exists m, rest, r, visited. auto.
+  Qed.
+
+  Theorem hash_node_sound T h c root c' :
+    (forall i, length (n_hash (T i)) = 32%nat) ->
+    Forall (fun n => length (n_hash n) = 32%nat) (dh_nodes h) ->
+    consistent_path T (pred (length (dh_nodes h))) (it_new (dh_index h)) ->
+    verify_tree cr None (Some h) None c = Ok (Some root, c') ->
+    n_hash root = n_hash (T (n_index root)) ->
+    exists n rest, dh_nodes h = n :: rest /\ n_index n = dh_index h /\
+      (n_hash n = n_hash (T (dh_index h)) \/ some_collision).
+  Proof.
+    intros HT Hq Hp H A.
+    apply verify_tree_hash_inv in H.
+    destruct H as (n & rest & r & visited & [= <-] & E & Hn & Hc & _).
+    exists n, rest. split; [exact E|]. split; [exact Hn|].
+    rewrite E in Hq, Hp. cbn [length pred] in Hp. inversion Hq as [|? ? _ Hq']; subst.
+    assert (QL : q_list (mkQ rest None) = rest)
+      by (unfold q_list; cbn [q_nodes q_extra]; apply app_nil_r).
+    eapply climb_sound in Hc; try eassumption.
+    - now rewrite it_index_it_new in Hc.
+    - now rewrite QL.
+    - now rewrite it_index_it_new.
+    - now rewrite QL.
+  Qed.
+
+  (* ==================================================================================== *)
+  (* D. signature binding                                                                  *)
+  (* ==================================================================================== *)
+
+  Theorem upgrade_signature_binds c sg pk c' :
+    cs_verify_and_set_signature cr c sg pk = Ok c' ->
+    cr_verify cr pk (signable (tree_hash cr (cs_roots c)) (cs_length c) (cs_fork c)) sg = true /\
+    cs_roots c' = cs_roots c /\ cs_length c' = cs_length c /\ cs_fork c' = cs_fork c /\
+    cs_signature c' = Some sg /\ cs_hash c' = Some (tree_hash cr (cs_roots c)) /\
+    length sg = 64%nat.
+  Proof.
+    unfold cs_verify_and_set_signature, parse_signature, cs_signable, cs_tree_hash. intros H.
+    destruct (Nat.eqb (length sg) 64) eqn:E; [|discriminate H]. cbn [bind] in H.
+    destruct (cr_verify cr pk _ sg) eqn:V; [|discriminate H].
+    injection H as <-. apply Nat.eqb_eq in E. cbn [cs_set_hash_sig cs_roots cs_length cs_fork cs_signature cs_hash].
+    repeat split; auto.
+  Qed.
+
+  (* no premise on the output length of cr_hash is needed (see signable_inj_gen) *)
+  Theorem signed_message_binds rs l f rs' l' f' :
+    Forall root_wf rs -> Forall root_wf rs' ->
+    l < 2 ^ 64 -> f < 2 ^ 64 -> l' < 2 ^ 64 -> f' < 2 ^ 64 ->
+    signable (tree_hash cr rs) l f = signable (tree_hash cr rs') l' f' ->
+    l = l' /\ f = f' /\ (map node_triple rs = map node_triple rs' \/ some_collision).
+  Proof.
+    intros W W' Bl Bf Bl' Bf' H. apply signable_inj_gen in H; auto.
+    destruct H as (H & -> & ->). repeat split. now apply tree_hash_binds.
+  Qed.
+
+  (* the two together: what an accepted signature says when the signed message is one the writer
+     produced for its own roots rs / length l / fork f *)
+  Corollary upgrade_accept_binds c sg pk c' rs l f :
+    cs_verify_and_set_signature cr c sg pk = Ok c' ->
+    Forall root_wf (cs_roots c) -> Forall root_wf rs ->
+    cs_length c < 2 ^ 64 -> cs_fork c < 2 ^ 64 -> l < 2 ^ 64 -> f < 2 ^ 64 ->
+    signable (tree_hash cr (cs_roots c)) (cs_length c) (cs_fork c) = signable (tree_hash cr rs) l f ->
+    cs_length c' = l /\ cs_fork c' = f /\ (cs_roots c' = rs \/ some_collision).
+  Proof.
+    intros H W W' B1 B2 B3 B4 E. apply upgrade_signature_binds in H.
+    destruct H as (_ & -> & -> & -> & _).
+    apply signed_message_binds in E; auto. destruct E as (-> & -> & [E|C]); repeat split; auto.
+    left. now apply map_node_triple_inj.
+  Qed.
+
+  (* ==================================================================================== *)
+  (* E. what an accepting run of verify_proof has checked                                  *)
+  (* ==================================================================================== *)
+
+  Lemma verify_upgrade_inv fork u br pk c consumed c4 :
+    verify_upgrade cr fork u br pk c = Ok (consumed, c4) ->
+    exists c3 q1,
+      cs_verify_and_set_signature cr (cs_set_fork c3 fork) (du_signature u) pk = Ok c4 /\
+      consumed = (match q_extra q1 with None => true | Some _ => false end).
+  Proof.
+    unfold verify_upgrade. intros H.
+    apply bind_ok in H. destruct H as [sl [_ H]].
+    apply bind_ok in H. destruct H as [to [_ H]].
+    apply bind_ok in H. destruct H as [[[c1 q1] it1] [_ H]].
+    apply bind_ok in H. destruct H as [li [_ H]].
+    apply bind_ok in H. destruct H as [[[c2 it2] rest] [_ H]].
+    apply bind_ok in H. destruct H as [[c3 it3] [_ H]].
+    apply bind_ok in H. destruct H as [c4' [Hs H]].
+    injection H as <- <-. exists c3, q1. auto.
+  Qed.
+
+  (* the comparison with the locally stored node *)
+  Definition stored_check (t : mtree) (tf : file) (r : node) : Prop :=
+    exists n, required_node t tf (n_index r) = Ok n /\ bytes_eqb (n_hash n) (n_hash r) = true.
+
+  Lemma stored_check_eq t tf r :
+    stored_check t tf r -> exists n, required_node t tf (n_index r) = Ok n /\ n_hash n = n_hash r.
+  Proof. intros (n & H1 & H2). exists n. split; [exact H1 | now apply bytes_eqb_eq]. Qed.
+
+  Theorem verify_proof_accept_inv t tf pf pk cs :
+    verify_proof cr t tf pf pk = Ok cs ->
+    exists root c1,
+      verify_tree cr (p_block pf) (p_hash pf) (p_seek pf) (tree_changeset t) = Ok (root, c1) /\
+      match p_upgrade pf with
+      | Some u =>
+          exists consumed c3,
+            verify_upgrade cr (p_fork pf) u root pk c1 = Ok (consumed, cs) /\
+            (* (1) the signature check succeeded on the final root list / length / fork *)
+            cs_verify_and_set_signature cr (cs_set_fork c3 (p_fork pf)) (du_signature u) pk = Ok cs /\
+            cr_verify cr pk (signable (tree_hash cr (cs_roots cs)) (cs_length cs) (cs_fork cs))
+                      (du_signature u) = true /\
+            cs_fork cs = p_fork pf /\ cs_signature cs = Some (du_signature u) /\
+            cs_hash cs = Some (tree_hash cr (cs_roots cs)) /\
+            (* (2) a root not consumed by the upgrade was compared with the stored node *)
+            (consumed = false -> forall r, root = Some r -> stored_check t tf r)
+      | None =>
+          cs = c1 /\ forall r, root = Some r -> stored_check t tf r
+      end.
+  Proof.
+    unfold verify_proof. intros H.
+    apply bind_ok in H. destruct H as [[root c1] [Hv H]].
+    exists root, c1. split; [exact Hv|].
+    apply bind_ok in H. destruct H as [[root2 c2] [Hu H]].
+    assert (Hfin : c2 = cs /\ forall r, root2 = Some r -> stored_check t tf r).
+    { destruct root2 as [r|].
+      - apply bind_ok in H. destruct H as [n [Hr H]].
+        destruct (bytes_eqb (n_hash n) (n_hash r)) eqn:E; [|discriminate H].
+        injection H as <-. split; [reflexivity|]. intros r' [= <-]. exists n. auto.
+      - injection H as <-. split; [reflexivity|]. intros r' [=]. }
+    destruct Hfin as [-> Hfin].
+    destruct (p_upgrade pf) as [u|].
+    - apply bind_ok in Hu. destruct Hu as [[consumed c'] [Hu H']].
+      injection H' as <- <-.
+      pose proof (verify_upgrade_inv _ _ _ _ _ _ _ Hu) as (c3 & q1 & Hs & _).
+      pose proof (upgrade_signature_binds _ _ _ _ Hs) as (V & R & L & F & S & Hh & _).
+      exists consumed, c3. split; [exact Hu|]. split; [exact Hs|].
+      rewrite R, L, F. split; [exact V|]. cbn [cs_set_fork cs_fork]. split; [reflexivity|].
+      split; [exact S|]. split; [exact Hh|].
+      intros -> r E. apply Hfin. exact E.
+    - injection Hu as <- <-. split; [reflexivity | exact Hfin].
+  Qed.
+
+  (* Remark (not a soundness statement, the converse): the parent hash covers only the SUM of
+     the two lengths, so two children with the right hashes and a right total are accepted
+     whatever the split.  For a block section the bottom length is inside the leaf hash; for a
+     hash section the lengths of the bottom node and of its first sibling are bound only in sum
+     (see toy_hash_section_length_split below). *)
+  Lemma parent_hash_length_split a b a' b' :
+    n_index a = n_index a' -> n_index b = n_index b' ->
+    n_hash a = n_hash a' -> n_hash b = n_hash b' ->
+    n_length a + n_length b = n_length a' + n_length b' ->
+    parent_hash cr a b = parent_hash cr a' b'.
+  Proof.
+    intros Ia Ib Ha Hb HL. unfold parent_hash. f_equal. unfold parent_preimage.
+    rewrite <- Ia, <- Ib. destruct (n_index a <=? n_index b).
+    - now rewrite Ha, Hb, HL.
+    - rewrite Ha, Hb. now rewrite (N.add_comm (n_length b)), HL, N.add_comm.
+  Qed.
+
 End Sound.
+
+(* ====================================================================================== *)
+(* Non-vacuity: a toy instance on which the verifier accepts an honest 2-level chain and    *)
+(* on which all the premises of the theorems above hold together                            *)
+(* ====================================================================================== *)
+
+Definition toy_hash (x : bytes) : bytes := firstn 32 (x ++ repeat 0 32).
+Definition toy : crypto := mkCrypto toy_hash (fun _ => 0) (fun _ _ => []) (fun _ _ _ => true).
+
+(* blocks 0 and 1 (flat 0, 2), their parent 1, an opaque right subtree 5, the root 3 *)
+Definition toyT (i : N) : node :=
+  let l0 := block_node toy 0 [1; 2; 3] in
+  let l2 := block_node toy 2 [4; 5] in
+  let p1 := parent_node toy 1 l0 l2 in
+  let p5 := mkNode 5 7 (toy_hash [9]) in
+  let p3 := parent_node toy 3 p1 p5 in
+  if i =? 0 then l0 else if i =? 2 then l2 else if i =? 1 then p1
+  else if i =? 5 then p5 else if i =? 3 then p3 else mkNode i 0 (toy_hash []).
+
+Definition toy_cs : changeset := mkCs 0 0 0 0 0 [] [] None None false 0 0.
+
+Example toy_hash32 : forall i, length (n_hash (toyT i)) = 32%nat.
+Proof.
+  intros i. unfold toyT.
+  destruct (i =? 0); [vm_compute; reflexivity|].
+  destruct (i =? 2); [vm_compute; reflexivity|].
+  destruct (i =? 1); [vm_compute; reflexivity|].
+  destruct (i =? 5); [vm_compute; reflexivity|].
+  destruct (i =? 3); vm_compute; reflexivity.
+Qed.
+
+Example toy_path : consistent_path toy toyT 2 (it_new 0).
+Proof.
+  constructor; [|constructor; [|constructor]].
+  - unfold consistent_at. vm_compute. repeat split; discriminate.
+  - unfold consistent_at. vm_compute. repeat split; discriminate.
+Qed.
+
+Example toy_climb_accepts :
+  climb toy 3 (mkQ [toyT 2; toyT 5] None) (it_new 0) (toyT 0) [toyT 0]
+  = Ok (toyT 3, [toyT 0; toyT 2; toyT 1; toyT 5; toyT 3]).
+Proof. vm_compute. reflexivity. Qed.
+
+Example toy_block_accepts :
+  verify_tree toy (Some (mkDataBlock 0 [1; 2; 3] [toyT 2; toyT 5])) None None toy_cs
+  = Ok (Some (toyT 3), cs_push_nodes toy_cs [toyT 0; toyT 2; toyT 1; toyT 5; toyT 3]).
+Proof. vm_compute. reflexivity. Qed.
+
+(* the theorems apply to the toy instance: all their premises hold together *)
+Example toy_climb_sound_applies :
+  n_hash (toyT 0) = n_hash (toyT 0) \/ some_collision toy.
+Proof.
+  apply (climb_sound toy toyT 3 (mkQ [toyT 2; toyT 5] None) (it_new 0) (toyT 0) [toyT 0]
+           (toyT 3) [toyT 0; toyT 2; toyT 1; toyT 5; toyT 3]).
+  - exact toy_hash32.
+  - repeat constructor.
+  - reflexivity.
+  - exact toy_path.
+  - exact toy_climb_accepts.
+  - reflexivity.
+Qed.
+
+Example toy_block_value_sound_applies :
+  [1; 2; 3] = [1; 2; 3] \/ some_collision toy.
+Proof.
+  apply (block_value_sound toy toyT (mkDataBlock 0 [1; 2; 3] [toyT 2; toyT 5]) None toy_cs (toyT 3)
+           (cs_push_nodes toy_cs [toyT 0; toyT 2; toyT 1; toyT 5; toyT 3]) [1; 2; 3]).
+  - exact toy_hash32.
+  - repeat constructor.
+  - exact toy_path.
+  - reflexivity.
+  - exact toy_block_accepts.
+  - reflexivity.
+Qed.
+
+(* a hash section whose bottom node and first sibling carry shifted lengths (4, 1 instead of
+   3, 2) is accepted with the same root, and the two nodes enter the changeset as they came *)
+Example toy_hash_section_length_split :
+  let n0 := mkNode 0 4 (n_hash (toyT 0)) in
+  let n2 := mkNode 2 1 (n_hash (toyT 2)) in
+  n_length (toyT 0) = 3 /\ n_length (toyT 2) = 2 /\
+  verify_tree toy None (Some (mkDataHash 0 [n0; n2; toyT 5])) None toy_cs
+  = Ok (Some (toyT 3), cs_push_nodes toy_cs [n0; n2; toyT 1; toyT 5; toyT 3]).
+Proof. vm_compute. repeat split. Qed.
+
+Print Assumptions bytes_eqb_eq.
+Print Assumptions leaf_preimage_inj.
+Print Assumptions parent_preimage_inj_gen.
+Print Assumptions parent_preimage_inj.
+Print Assumptions parent_preimage_inj_same_idx.
+Print Assumptions leaf_parent_disjoint.
+Print Assumptions tree_preimage_inj.
+Print Assumptions tree_preimage_inj_eq.
+Print Assumptions signable_inj_gen.
+Print Assumptions signable_inj.
+Print Assumptions leaf_hash_binds.
+Print Assumptions parent_hash_binds.
+Print Assumptions parent_hash_binds_same_idx.
+Print Assumptions tree_hash_binds.
+Print Assumptions climb_all_sound.
+Print Assumptions climb_sound.
+Print Assumptions climb_root_index.
+Print Assumptions climb_siblings_sound.
+Print Assumptions block_value_sound.
+Print Assumptions hash_node_sound.
+Print Assumptions upgrade_signature_binds.
+Print Assumptions signed_message_binds.
+Print Assumptions upgrade_accept_binds.
+Print Assumptions verify_upgrade_inv.
+Print Assumptions verify_proof_accept_inv.
+Print Assumptions parent_hash_length_split.
+Print Assumptions toy_climb_sound_applies.
+Print Assumptions toy_block_value_sound_applies.
+Print Assumptions toy_hash_section_length_split.
